@@ -775,23 +775,14 @@ impl<'a> Parser<'a> {
             let params: Rc<[_]> = self.parse_function_params()?.into();
             let return_type = self.parse_optional_return_type()?;
 
-            if !is_abstract && !self.check(&TokenKind::LBrace) {
-                // Method overload signature: `run(a: number): number;`
+            if is_abstract || !self.check(&TokenKind::LBrace) {
+                // Method overload signature `run(a: number): number;` or abstract method
+                // `abstract area(): number;`: declarations only, nothing exists at run time
                 self.expect_semicolon()?;
                 return Ok(None);
             }
 
-            // Abstract methods have no body - just a semicolon
-            let body = if is_abstract {
-                self.expect_semicolon()?;
-                // Create empty body for abstract methods (they're never called at runtime)
-                Rc::new(BlockStatement {
-                    body: Rc::from([]),
-                    span: self.span_from(start),
-                })
-            } else {
-                Rc::new(self.parse_block_statement()?)
-            };
+            let body = Rc::new(self.parse_block_statement()?);
 
             let value = FunctionExpression {
                 id: None,
@@ -831,6 +822,11 @@ impl<'a> Parser<'a> {
             };
 
             self.expect_semicolon()?;
+
+            if is_abstract {
+                // `abstract name: string;` declares a member of subclasses: no field here
+                return Ok(None);
+            }
 
             let span = self.span_from(start);
             Ok(Some(ClassMember::Property(Box::new(ClassProperty {
